@@ -116,3 +116,43 @@ Definition pt_build (enc : nat -> option code) (fuel : nat) (text : list nat) : 
     end in
   do cs <- encode_all text;
   pt_construct fuel cs.
+
+(* ------------------------------------------------------------------ encoder.rs FixedWidthEncoder *)
+(* chars = the distinct symbols, ascending; encode(t) = (position of t, width) with
+   width = max(len, 2).next_power_of_two().ilog2(); decode(v) = chars[v] *)
+Fixpoint insert_uniq (x : nat) (l : list nat) : list nat :=
+  match l with
+  | [] => [x]
+  | y :: r => if x <? y then x :: l else if x =? y then l else y :: insert_uniq x r
+  end.
+Definition fw_chars (text : list nat) : list nat := fold_right insert_uniq [] text.
+Definition fw_width (chars : list nat) : nat := Nat.log2_up (Nat.max (length chars) 2).
+
+Fixpoint to_bits (width n : nat) : list bool :=
+  match width with
+  | 0 => []
+  | S w => Nat.odd n :: to_bits w (Nat.div2 n)
+  end.
+Fixpoint of_bits (c : list bool) : nat :=
+  match c with
+  | [] => 0
+  | b :: r => (if b then 1 else 0) + 2 * of_bits r
+  end.
+Fixpoint position_of (t : nat) (l : list nat) (i : nat) : option nat :=
+  match l with
+  | [] => None
+  | y :: r => if t =? y then Some i else position_of t r (S i)
+  end.
+
+Definition fw_enc (chars : list nat) (t : nat) : option code :=
+  match position_of t chars 0 with
+  | Some p => Some (to_bits (fw_width chars) p)
+  | None => None
+  end.
+Definition fw_dec (chars : list nat) (c : code) : option nat := nth_error chars (of_bits c).
+
+(* prefix::WaveletTree<FixedWidthEncoder> over a symbol string: (tree, chars) *)
+Definition fw_tree (text : list nat) : res (ptree * list nat) :=
+  let chars := fw_chars text in
+  do t <- pt_build (fw_enc chars) (S (fw_width chars)) text;
+  Ok (t, chars).
